@@ -14,10 +14,13 @@ EXTENDS Naturals, Sequences, FiniteSets, TLC, Json, IOUtils, SequencesExt, Finit
 CONSTANTS Depth2   \* TRUE: also containers holding one container
 
 Plains == {"num", "str", "bool", "none"}
+\* (qarr, qarr2: array-valued quantities of one and of two dimensions)
 Leaves == Plains \cup {"npscalar", "nparr", "qfin", "qnan", "qinf", "unit", "proc",
-                       "func", "unsup"}
+                       "func", "unsup", "qarr", "qarr2"}
 L(t) == [t |-> t, kids |-> <<>>, q |-> "-"]
 ERR == L("ERR")
+ListOf(a, b) == [t |-> "list", kids |-> <<a, b>>, q |-> "-"]
+UStr(q) == [t |-> "ustr", kids |-> <<>>, q |-> q]
 
 RECURSIVE Ser(_)
 Ser(v) ==
@@ -26,6 +29,9 @@ Ser(v) ==
     [] v.t = "npscalar" -> L("num")
     [] v.t = "nparr" -> [t |-> "list", kids |-> <<L("num"), L("num")>>, q |-> "-"]
     [] v.t \in {"qfin", "qnan", "qinf", "unit"} -> [t |-> "ustr", kids |-> <<>>, q |-> v.t]
+    \* an array-valued quantity: one string per element, nested like the array
+    [] v.t = "qarr" -> ListOf(UStr("qfin"), UStr("qfin"))
+    [] v.t = "qarr2" -> ListOf(ListOf(UStr("qfin"), UStr("qfin")), ListOf(UStr("qfin"), UStr("qfin")))
     [] v.t = "proc" -> L("pstr")
     [] v.t = "func" -> L("fstr")
     [] v.t = "unsup" -> ERR
@@ -53,6 +59,8 @@ Canon(v) ==
   CASE v.t = "npscalar" -> L("num")
     [] v.t = "nparr" -> [t |-> "list", kids |-> <<L("num"), L("num")>>, q |-> "-"]
     [] v.t = "unit" -> L("qone")
+    [] v.t = "qarr" -> ListOf(L("qfin"), L("qfin"))
+    [] v.t = "qarr2" -> ListOf(ListOf(L("qfin"), L("qfin")), ListOf(L("qfin"), L("qfin")))
     [] v.t = "proc" -> L("pstr")
     [] v.t = "func" -> L("fstr")
     [] v.t \in {"list", "tuple", "set", "dict"} ->
